@@ -627,11 +627,18 @@ def _mem_bytes_of(f):
 # ---------------------------------------------------------------------------------------------------------------------------------
 def rule_release_range(mod, rep):
     from .threads import loop_bound
-    rep.rule("REL-RANGE", "p?gstrf_thread: the loop that releases a relaxed supernode runs over jcol .. jcol + pan_status[jcol].size - 1: its bound is jcol plus the loaded size "
-             "itself (every column the scheduler locked is released)", floor=4)
+    from .layout import padd, pconst, pfmt
+    rep.rule("REL-RANGE", "p?gstrf_thread: the loop that releases a relaxed supernode releases exactly pan_status[jcol].size consecutive columns: with the released index a "
+             "linear function of the loop counter, index(bound) - index(start) equals the loaded size itself (symbolic polynomials; a clamped or recomputed width is a "
+             "different symbol): every column the scheduler locked is released", floor=4)
     for prec, f in fam(mod, "p?gstrf_thread"):
         rep.scope([f.name])
         found = False
+        P = _Poly(f)
+        size_syms = set()
+        for x in f.insts():
+            if x.op == "load" and addr_has_field(f, x, "size", "pan_status_t"):
+                size_syms |= set(P.of(["v", x.i]).keys())
         for h, body in f.loops():
             rel = [s for b in body for s in f.blocks[b].insts if s.op == "store" and is_const(s.ops[0], 0) and addr_is_elem_of(f, s, "spin_locks")]
             if not rel or any(x.op == "call" and not (x.callee or "").startswith("llvm.dbg") for b in body for x in f.blocks[b].insts):
@@ -640,15 +647,36 @@ def rule_release_range(mod, rep):
             if not lb:
                 continue
             found = True
-            bv = strip_casts(f, lb[2])
-            ok = False
-            if bv[0] == "v" and f.inst[bv[1]].op == "add":
-                parts = [strip_casts(f, o) for o in f.inst[bv[1]].ops]
-                sz = [o for o in parts if o[0] == "v" and f.inst[o[1]].op == "load" and addr_has_field(f, f.inst[o[1]], "size", "pan_status_t")]
-                ok = len(sz) == 1
-            rep.check(ok, "REL-RANGE", "%s#relaxed-release" % f.name, "release loop bound is jcol + pan_status[jcol].size",
-                      "the release loop is bounded by something other than jcol + pan_status[jcol].size (a clamped or recomputed width): trailing columns of a wide relaxed supernode "
-                      "stay locked and a pipelined parent spins forever", f.blocks[h].insts[-1].loc, f.name)
+            ph = lb[0]
+            init = [o for o, b in zip(ph.ops, ph.inb) if b not in body]
+            idx = gep_index(f, rel[0].ops[1])
+            ok = False; why = "index or bounds not linear in the counter"
+            if idx is not None and len(init) == 1:
+                pi = P.of(idx)
+                ck = ("v%d" % ph.i,)
+                if pi.get(ck) == 1 and all(ck[0] not in k or k == ck for k in pi):
+                    # index(bound) - index(init) = bound - init for a unit coefficient
+                    step = None
+                    for o, b in zip(ph.ops, ph.inb):
+                        o = strip_casts(f, o)
+                        if b in body and o[0] == "v" and f.inst[o[1]].op in ("add", "sub"):
+                            q = padd(P.of(o), {ck: 1}, -1)
+                            q = {k: v for k, v in q.items() if v != 0}
+                            step = q.get((), None) if set(q) <= {()} else None
+                    if step == 1:
+                        cnt = padd(P.of(lb[2]), P.of(init[0]), -1)
+                        incl = lb[1] in ("sle", "ule"); okp = lb[1] in ("slt", "ult", "sle", "ule", "ne")
+                    else:
+                        cnt = padd(P.of(init[0]), P.of(lb[2]), -1)
+                        incl = lb[1] in ("sge", "uge"); okp = step == -1 and lb[1] in ("sgt", "ugt", "sge", "uge", "ne")
+                    if incl:
+                        cnt = padd(cnt, pconst(1), 1)
+                    cnt = {k: v for k, v in cnt.items() if v != 0}
+                    ok = okp and len(cnt) == 1 and list(cnt.values()) == [1] and set(cnt) <= size_syms
+                    why = "number of released columns = %s" % pfmt(cnt)
+            rep.check(ok, "REL-RANGE", "%s#relaxed-release" % f.name, "the release loop covers pan_status[jcol].size columns",
+                      "the release loop does not cover exactly pan_status[jcol].size columns (%s): trailing columns of a wide relaxed supernode stay locked and a pipelined "
+                      "parent spins forever" % why, f.blocks[h].insts[-1].loc, f.name)
         if not found:
             rep.brk("ANALYSIS-BROKEN REL-RANGE: release loop not found in %s" % f.name)
 
@@ -770,6 +798,14 @@ def rule_ptr_shift(mod, rep):
                     if len(syms) == 1 and list(syms.values())[0] == 1:
                         # counter value n: stays in the loop?
                         covers = (lb[1] in ("sle", "ule") and const >= 0) or (lb[1] in ("slt", "ult") and const >= 1)
+                    elif not syms:
+                        # descending form: starts at n (+c), runs down to 0 inclusive
+                        ini = [o for o, b2 in zip(lb[0].ops, lb[0].inb) if b2 not in body]
+                        if len(ini) == 1:
+                            pi = P.of(ini[0])
+                            isyms = {k: v for k, v in pi.items() if k}
+                            covers = len(isyms) == 1 and list(isyms.values())[0] == 1 and pi.get((), 0) >= 0 and \
+                                ((lb[1] in ("sge",) and const <= 0) or (lb[1] in ("sgt",) and const <= -1))
                 rep.check(covers, "PTR-SHIFT", "get_perm_c#b_colptr-shift", "the shift covers b_colptr[0..n]",
                           "the loop that renumbers b_colptr[] stops before i = n: b_colptr[n] keeps the other numbering and GENMMD sees a wrong adjacency length for the last vertex",
                           f.blocks[h].insts[-1].loc, f.name)
